@@ -335,8 +335,14 @@ class Gen:
 # ---------------------------------------------------------------------------
 # command-line overrides (config.py process_cmdline): `a.b[0].c=value`
 
+def _is_plain(sd):
+    return sd["form"] == "none" and sd["k"] in ("dict", "list", "scalar") and all(_is_plain(c) for _, c in sd["ch"])
+
+
 def _is_chain(sd):
-    return sd["form"] == "none" and (sd["k"] != "dict" or (len(sd["ch"]) == 1 and _is_chain(sd["ch"][0][1])))
+    if sd["k"] == "dict" and len(sd["ch"]) == 1:
+        return sd["form"] == "none" and _is_chain(sd["ch"][0][1])
+    return _is_plain(sd) and sd["k"] != "dict"
 
 
 def is_override_doc(sd):
